@@ -6,10 +6,10 @@ CONSTANTS
   OutOf <- OutSingle
   SingleFile = TRUE
   GenKinds = {"ok"}
-  Visits <- VisitsOnce
-  Dedupe = "none"
-  Items <- ItemsMixed
+  Visits <- VisitsF1Twice
+  Dedupe = "per_worker"
+  Items <- ItemsDistinct
 SPECIFICATION Spec
-INVARIANTS TypeOk Deterministic
-
+INVARIANTS TypeOk ExitOk NoWriteWithErrors WroteOk NoPanicExit CleanSucceeds Deterministic
+PROPERTY Terminates
 CHECK_DEADLOCK FALSE
